@@ -76,11 +76,14 @@ func srvIdx(id string) int {
 
 var pols = map[string]*policies.Policies{
 	"none": nil,
-	"Z":    {AntiAffinities: []policies.AntiAffinity{{Labels: []string{"zone"}, Mode: policies.Strict}}},
+	// a policies object that is there but holds no rule (`policies: {}` in the configuration): no constraint,
+	// like none, but the code paths that test `Policies != nil` see it
+	"empty": {},
+	"Z":     {AntiAffinities: []policies.AntiAffinity{{Labels: []string{"zone"}, Mode: policies.Strict}}},
 	"ZR": {AntiAffinities: []policies.AntiAffinity{{Labels: []string{"zone"}, Mode: policies.Strict},
 		{Labels: []string{"rack"}, Mode: policies.Strict}}},
 }
-var polNames = []string{"none", "Z", "ZR"}
+var polNames = []string{"none", "empty", "Z", "ZR"}
 
 // policyByName: "none" / "Z" / "ZR" (parts A-F) or a rule list "Zs.Rr.Ts" (parts G-I): one token per
 // anti-affinity rule, in order; first letter = label (Z zone, R rack, T type), second letter = mode
@@ -699,7 +702,7 @@ func labelCases(n int, pol string, canonical bool) []labelCase {
 	var out []labelCase
 	zero := make([]int, n)
 	switch pol {
-	case "none":
+	case "none", "empty":
 		out = append(out, labelCase{n: n, zone: zero, rack: zero})
 		// labels must not matter without a policy: one fully labelled variant
 		z := make([]int, n)
@@ -1798,7 +1801,7 @@ func main() {
 			tieCap = 2
 		}
 		switch pol {
-		case "none":
+		case "none", "empty":
 			return []labelCase{{n: n, zone: zero, rack: zero}}, tieCap
 		case "Z":
 			if n == maxN || (!thorough && n == 4) {
